@@ -191,7 +191,8 @@ def snapClosest (b : Box) (source : V2) : Except Err V2 :=
     let l := sideLine b (closestSide b (source - b.center))
     lineIntersect b.center source l.1 l.2
 
-/-! ### `__vector_snap_oblique` -/
+/-! ### `__vector_snap_oblique`, in the form used by the proofs (equal to the literal one below:
+`snapObliqueLit_eq` in `Lemmas/GeomLit.lean`) -/
 
 /-- one `if "<side>" in edges:` block: intersect, swallow `ValueError`, keep if within the border -/
 def hitH (b1 b2 s p : V2) : List V2 :=
@@ -217,11 +218,59 @@ def pickHit : List V2 → Except Err V2
   | [] => .error .noIntersection
   | q :: rest => if rest.all (fun r => r = q) then .ok q else .error .multiIntersection
 
-/-- `Box.__vector_snap_oblique(point, source)` (called with `point != source`) -/
+/-- `Box.__vector_snap_oblique(point, source)` (called with `point != source`): the first candidate border
+whose intersection lies on it; all such intersections must be the same point -/
 def snapOblique (b : Box) (point source : V2) : Except Err V2 :=
   let p := if inBox b point then point else b.center
   if p = source then snapClosest b point
   else pickHit (obliqueHits b source p)
+
+/-! ### `__vector_snap_oblique`, statement by statement (this is what `vectorSnap` runs) -/
+
+/-- `miss(low, value, high)` of the repaired `__vector_snap_oblique`: how far `value` lies outside `[low, high]` -/
+def miss (lo v hi : Rat) : Rat := max (max (lo - v) (v - hi)) 0
+
+/-- one `if "<side>" in edges:` block of the repaired code: intersect, swallow `ValueError`, record the miss -/
+def candH (b1 b2 s p : V2) : List (Rat × V2) :=
+  match lineIntersect b1 b2 s p with
+  | .ok q => [(miss b1.x q.x b2.x, q)]
+  | .error _ => []
+
+def candV (b1 b2 s p : V2) : List (Rat × V2) :=
+  match lineIntersect b1 b2 s p with
+  | .ok q => [(miss b1.y q.y b2.y, q)]
+  | .error _ => []
+
+/-- the list `intersections` of `(distance, intersection)` pairs, in the order top, left, right, bottom -/
+def obliqueCands (b : Box) (source p : V2) : List (Rat × V2) :=
+  let d := p - source
+  (if 0 < d.y then candH b.tl b.tr source p else []) ++
+  (if 0 < d.x then candV b.tl b.bl source p else []) ++
+  (if d.x < 0 then candV b.tr b.br source p else []) ++
+  (if d.y < 0 then candH b.bl b.br source p else [])
+
+/-- `min(intersections, key=lambda i: i[0])`: the first minimal element -/
+def minByMiss : (Rat × V2) → List (Rat × V2) → (Rat × V2)
+  | best, [] => best
+  | best, c :: cs => if c.1 < best.1 then minByMiss c cs else minByMiss best cs
+
+/-- the three closing assertions of the repaired code, with the float tolerance `1e-6` at `0` -/
+def pickCand (l : List (Rat × V2)) : Except Err V2 :=
+  match l with
+  | [] => .error .noIntersection
+  | c :: cs =>
+    let m := minByMiss c cs
+    if ¬ m.1 ≤ 0 then .error .noIntersection
+    else if l.all (fun i => 0 < i.1 ∨ i.2 = m.2) then .ok m.2
+    else .error .multiIntersection
+
+/-- `Box.__vector_snap_oblique(point, source)` as coded after the two repairs, statement by statement -/
+def snapObliqueLit (b : Box) (point source : V2) : Except Err V2 :=
+  if point = source then .error .noDirection                   -- assert point != source
+  else if ¬ inBox b point then
+    if source = b.center then snapClosest b point
+    else pickCand (obliqueCands b source b.center)
+  else pickCand (obliqueCands b source point)
 
 /-! ### `__vector_snap_manhattan` -/
 
@@ -260,7 +309,7 @@ def snapTree (b : Box) (point direction : V2) : V2 :=
 (`source=None` is `source = point`). -/
 def vectorSnap (b : Box) (point source : V2) (style : Style) : Except Err V2 :=
   match style with
-  | .oblique => if point = source then snapClosest b point else snapOblique b point source
+  | .oblique => if point = source then snapClosest b point else snapObliqueLit b point source
   | .manhattan => snapManhattan b point (point - source)
   | .tree => .ok (snapTree b point (point - source))
 
